@@ -57,7 +57,12 @@ def _is_file_like(ex, st, pos, kw, n):
 
 R.globals['_is_file_like'] = ('$builtin', '_is_file_like')
 R.builtin_models['_is_file_like'] = _is_file_like
-R.builtin_models['print'] = lambda ex, st, pos, kw, n: iter([(st, None)])
+def _print(ex, st, pos, kw, n):
+    st.trace.append(('print',) + tuple(pos))        # text sent to sys.stdout
+    yield st, None
+
+
+R.builtin_models['print'] = _print
 
 
 def _open(ex, st, pos, kw, n):
@@ -194,6 +199,37 @@ class MakeSource(PyContract):
         return out
 
 
+class MakeSourceFileLike(PyContract):
+    """a file-like target (what FFI.emit_c_code(buffer) and cffi-gen-src use): the text goes to the object and
+    nothing is printed to sys.stdout, whatever `verbose` is (C24: '-' sends exactly the module text to stdout)"""
+    name = 'recompiler:_make_c_or_py_source'
+    label = 'file-like target'
+
+    def setup(self, ex):
+        self.f = PObj('FileLike')
+        return {'ffi': PObj('FFI'), 'module_name': SV(z3.String('module_name'), 'str'),
+                'preamble': SV(z3.String('preamble'), 'str'), 'target_file': self.f,
+                'verbose': SV(z3.Bool('verbose'), 'bool')}, []
+
+    def init_state(self, st):
+        st.ghost['fs'] = {}
+        st.ghost['output'] = SV(z3.String('output'), 'str')
+
+    def witness(self, ex, args):
+        return {'verbose': z3.If(z3.Bool('verbose'), z3.IntVal(1), z3.IntVal(0))}
+
+    def post(self, ex, args, kind, value, st):
+        writes = [t for t in st.trace if t[0] == 'write_source_to_file_like']
+        prints = [t for t in st.trace if t[0] == 'print']
+        return [('the source is written to the file-like object exactly once and True is returned',
+                 z3.BoolVal(kind == 'return' and value is True and len(writes) == 1)),
+                ('nothing is printed to sys.stdout', z3.BoolVal(len(prints) == 0))]
+
+
 def items():
     return [('src/cffi/recompiler.py', R, '_make_c_or_py_source', MakeSource(True)),
             ('src/cffi/recompiler.py', R, '_make_c_or_py_source', MakeSource(False))]
+
+
+def filelike_items():
+    return [('src/cffi/recompiler.py', R, '_make_c_or_py_source', MakeSourceFileLike())]
